@@ -567,19 +567,21 @@ func c13Menu() []c13op {
 			return dg(hx(proofBytes(p)), ok, verr)
 		}, none
 	})
-	add("proofs read one after the other into the same variables; value copies of the earlier ones are kept", func(c *ipa.IPAConfig, seed int64) ([]interface{}, func() string, func() string) {
+	add("proofs read into variables that already hold a proof; the caller keeps value copies of the earlier proofs", func(c *ipa.IPAConfig, seed int64) ([]interface{}, func() string, func() string) {
 		h0 := append(make([]byte, 0, 600), honestProofBytes(seed, 0)...)
 		h1 := append(make([]byte, 0, 600), honestProofBytes(seed, 1)...)
-		return []interface{}{&h0, &h1}, func() string {
-			var mp multiproof.MultiProof
-			var ip ipa.IPAProof
-			e1 := mp.Read(bytes.NewBuffer(append([]byte(nil), h0...)))
-			e2 := ip.Read(bytes.NewReader(h0[32:]))
-			k1, k2 := mp, ip
-			e3 := mp.Read(bytes.NewReader(h1))
+		var mp multiproof.MultiProof
+		var ip ipa.IPAProof
+		if e1, e2 := mp.Read(bytes.NewReader(h0)), ip.Read(bytes.NewReader(h0[32:])); e1 != nil || e2 != nil {
+			panic(core.ImplFault{API: "MultiProof.Read / IPAProof.Read", Input: "bytes of an honest proof", Got: fmt.Sprint(e1, e2)})
+		}
+		// value copies taken by the caller: they are the caller's data from now on and are not passed to any call
+		keepM, keepI := mp, ip
+		return []interface{}{&h0, &h1, &keepM, &keepI}, func() string {
+			e3 := mp.Read(bytes.NewBuffer(append([]byte(nil), h1...)))
 			e4 := ip.Read(bytes.NewReader(h1[32:]))
 			e5 := ip.Read(bytes.NewReader(h0[32:300])) // truncated
-			return dg(e1, e2, e3, e4, e5 != nil, hx(proofBytes(&k1)), hx(ipaProofBytes(&k2)), hx(proofBytes(&mp)))
+			return dg(e3, e4, e5 != nil, hx(proofBytes(&mp)))
 		}, none
 	})
 	add("fr comparisons and predicates on caller elements (LexicographicallyLargest, Cmp, IsZero, IsUint64, Legendre, Equal), repeated", func(c *ipa.IPAConfig, seed int64) ([]interface{}, func() string, func() string) {
